@@ -70,7 +70,7 @@ pub fn oracle(case: &McCase, res: &McResult) -> Outcome {
             CallOut::Ok(_) | CallOut::Abandoned(_) => {}
             CallOut::Err(_, e) => {
                 // "attempts beyond it fail or wait": the only failure a connect may report here
-                if !e.contains("too many") {
+                if !(e.contains("TooManyActiveConnections") || e.contains("too many")) {
                     viol!("connect-error", "connect #{ci} failed with an unexpected error: {e}");
                 }
                 labels.insert("connect_refused");
@@ -250,7 +250,7 @@ pub fn oracle(case: &McCase, res: &McResult) -> Outcome {
                 if let CallOut::Err(t, e) = &c.out {
                     let me = &case.conns[ci];
                     let other_pending = res.conns.iter().enumerate().any(|(cj, o)| cj != ci && case.conns[cj].from == me.from && case.conns[cj].to == me.to && o.call_at_us <= *t && match &o.out { CallOut::Ok(x) | CallOut::Err(x, _) | CallOut::Abandoned(x) => *x >= c.call_at_us, _ => true });
-                    if e.contains("too many") && other_pending { labels.insert("refused_while_another_pending"); continue; }
+                    if (e.contains("TooManyActiveConnections") || e.contains("too many")) && other_pending { labels.insert("refused_while_another_pending"); continue; }
                 }
                 if clash_pairs.contains(&(case.conns[ci].from.min(case.conns[ci].to), case.conns[ci].from.max(case.conns[ci].to))) { continue; }
                 if !matches!(c.out, CallOut::Ok(_)) || !by_token.contains_key(&ci) {
